@@ -39,7 +39,12 @@ func ruleLockField(c *chk.Ctx, owner string, fields ...*types.Var) {
 				c.Pass("LOCK.field", f, name, fa.Pos(), "accessed with %s held", lock)
 				return
 			}
-			if _, fresh := ir.NormCell(fa.X).(*ssa.Alloc); fresh {
+			_, fresh := ir.NormCell(fa.X).(*ssa.Alloc)
+			if !fresh {
+				// a private helper called from the constructor only, on the value being built
+				_, fresh = c.P.Canon(fa.X).(*ssa.Alloc)
+			}
+			if fresh {
 				c.Exists("LOCK.field", f, name, fa.Pos(), "constructor: the owner is freshly allocated and has not escaped")
 				return
 			}
